@@ -196,8 +196,17 @@ class BehavioralRTLIRTypeCheckVisitorL2( BehavioralRTLIRTypeCheckVisitorL1 ):
     # s.enforcer.enter(s.blk, context_type, node.end)
     # s.enforcer.enter(s.blk, context_type, node.step)
 
+    tmpvars_were_explicit = dict( s.tmpvars_is_explicit )
+
     for stmt in node.body:
       s.visit( stmt )
+
+    # A temporary that is given an explicitly sized value inside the body
+    # is explicitly sized at the top of the body from the second iteration
+    # on: check the body again with what is known at its end.
+    if any( s.tmpvars_is_explicit[k] != v for k, v in tmpvars_were_explicit.items() ):
+      for stmt in node.body:
+        s.visit( stmt )
 
     del s.loopvar_nbits[node.var.name]
 
